@@ -4,6 +4,8 @@ mod parse_type_system_document;
 mod process_type_system_definition;
 mod query_text;
 mod read_schema;
+#[cfg(feature = "isographlabs_isograph_verif")]
+pub mod verif;
 
 pub use graphql_network_protocol::*;
 pub use read_schema::*;
